@@ -1,5 +1,6 @@
 import Econf.Lemmas.ParserLemmas
 import Econf.Lemmas.DocLemmas
+import Econf.Lemmas.LayeredLemmas
 
 /-!
   C13 — parse failures name the right error and line and return nothing partial.
@@ -181,5 +182,201 @@ example : parseBytes exCfg (render exDoc ++ [0x5b, 0x78, 0x0a] ++ [0x61, 0x3d, 0
   apply C13_after_conventional exCfg exDoc _ _ _ exCfg_wf exDoc_wf ⟨[0x5b, 0x78], rfl, by decide⟩
   intro st
   exact C13_section_line _ st _ [0x78] _ (by decide) (by decide) ((C13_section_codes [0x78]).1 (by decide))
+
+/-! ### the error location of a layered read (the process-wide record `last_scanned_filename` / `last_scanned_line_nr`) -/
+
+
+/-- "the error location is `(file, line)` and the failure is the parse error `e` of that file's content" -/
+def LocatedAt (ctx : RdCtx) (join python : Bool) (d c : Str) (s' : RdState) (path : Str) (e : Err) : Prop :=
+  ∃ abs content n, absPath ctx.fs path = some abs ∧ ctx.fs.read abs = some content ∧
+    parseBytes { delim := d, comment := c, python := python, join := join } content = .error (e, n) ∧
+    s'.g.errFile = abs ∧ s'.g.errLine = n
+
+theorem parseErr_ne_nofile (e : Err) (h : ParseErr e) : e ≠ .nofile := by
+  rcases h with h | h | h | h <;> (rw [h]; intro hh; cases hh)
+
+theorem parseErr_ne_cb (e : Err) (h : ParseErr e) : e ≠ .parsingCallbackFailed := by
+  rcases h with h | h | h | h <;> (rw [h]; intro hh; cases hh)
+
+theorem parseErr_not_gate (g : Global) (node : Node) (e : Err) (h : gate g node = some e) : ¬ ParseErr e := by
+  unfold gate at h
+  intro hp
+  split at h
+  · cases h; rcases hp with h | h | h | h <;> cases h
+  · split at h
+    · cases h; rcases hp with h | h | h | h <;> cases h
+    · split at h
+      · cases h; rcases hp with h | h | h | h <;> cases h
+      · cases h
+
+/-- one file: a parse failure leaves the location record at that file's absolute path and the
+    number of the offending line -/
+theorem C13_location_file (ctx : RdCtx) (s : RdState) (join python : Bool) (path d c : Str) (e : Err)
+    (h : (readFileCB ctx s join python path d c).2 = .error e) (hp : ParseErr e) :
+    LocatedAt ctx join python d c (readFileCB ctx s join python path d c).1 path e := by
+  unfold readFileCB at h ⊢
+  split at h
+  · cases h; exact absurd rfl (parseErr_ne_nofile _ hp)
+  · rename_i node hl
+    simp only [hl]
+    split at h
+    · rename_i e' hg; cases h; exact absurd hp (parseErr_not_gate _ _ _ hg)
+    · generalize askCallback ctx.cb s path = a at h ⊢
+      obtain ⟨a1, a2⟩ := a
+      simp only at h ⊢
+      cases a2
+      · simp only [Bool.not_false, if_true] at h; cases h; exact absurd rfl (parseErr_ne_cb _ hp)
+      · simp only [Bool.not_true, Bool.false_eq_true, if_false] at h ⊢
+        cases ha : absPath ctx.fs path with
+        | none => simp only [ha] at h; cases h; exact absurd rfl (parseErr_ne_nofile _ hp)
+        | some abs =>
+          simp only [ha] at h ⊢
+          unfold readOpened at h ⊢
+          cases hr : ctx.fs.read abs with
+          | none => simp only [hr] at h; cases h; exact absurd rfl (parseErr_ne_nofile _ hp)
+          | some content =>
+            simp only [hr] at h ⊢
+            cases hpb : parseBytes { delim := d, comment := c, python := python, join := join } content with
+            | ok st => simp only [hpb] at h; cases h
+            | error en =>
+              obtain ⟨e', n⟩ := en
+              simp only [hpb] at h ⊢
+              cases h
+              exact ⟨abs, content, n, ha, hr, hpb, rfl, rfl⟩
+
+/-- a sequence of files (the drop-ins of a layered read): the location record names the file at
+    which the read stopped – the first one that fails – whatever was read before it -/
+theorem C13_location_seq (ctx : RdCtx) (join python : Bool) (d c : Str) (s : RdState) (paths : List Str) (e : Err)
+    (h : (readSeq ctx join python d c s paths).2 = .error e) (hp : ParseErr e) :
+    ∃ pre p post, paths = pre ++ p :: post ∧
+      LocatedAt ctx join python d c (readSeq ctx join python d c s paths).1 p e := by
+  induction paths generalizing s with
+  | nil => simp [readSeq] at h
+  | cons p ps ih =>
+    unfold readSeq at h ⊢
+    simp only at h ⊢
+    have h1 := C13_location_file ctx s join python p d c
+    generalize readFileCB ctx s join python p d c = q at h h1 ⊢
+    obtain ⟨q1, q2⟩ := q
+    cases q2 with
+    | error e' =>
+      simp only at h ⊢; cases h
+      exact ⟨[], p, ps, rfl, h1 e rfl hp⟩
+    | ok kf =>
+      simp only at h ⊢
+      have h2 := ih q1
+      generalize readSeq ctx join python d c q1 ps = r at h h2 ⊢
+      obtain ⟨r1, r2⟩ := r
+      cases r2 with
+      | error e' =>
+        simp only at h ⊢; cases h
+        obtain ⟨pre, p', post, hps, hloc⟩ := h2 rfl
+        exact ⟨p :: pre, p', post, by rw [hps]; rfl, hloc⟩
+      | ok kfs => simp at h
+
+/-- the main-file search -/
+theorem C13_location_first (ctx : RdCtx) (join python : Bool) (d c : Str) (s : RdState) (paths : List Str) (e : Err)
+    (h : (readFirst ctx join python d c s paths).2 = .error e) (hp : ParseErr e) :
+    ∃ p ∈ paths, LocatedAt ctx join python d c (readFirst ctx join python d c s paths).1 p e := by
+  induction paths generalizing s with
+  | nil => simp [readFirst] at h
+  | cons p ps ih =>
+    unfold readFirst at h ⊢
+    simp only at h ⊢
+    have h1 := C13_location_file ctx s join python p d c
+    generalize readFileCB ctx s join python p d c = q at h h1 ⊢
+    obtain ⟨q1, q2⟩ := q
+    cases q2 with
+    | ok kf => simp at h
+    | error e' =>
+      by_cases hn : e' = .nofile
+      · subst hn
+        simp only at h ⊢
+        obtain ⟨p', hp', hloc⟩ := ih q1 h
+        exact ⟨p', List.mem_cons_of_mem _ hp', hloc⟩
+      · simp only at h h1 ⊢
+        have hee : e = e' := by cases e' <;> simp_all
+        subst hee
+        exact ⟨p, by simp, h1 e rfl hp⟩
+
+
+/-- **the layered read**: when `econf_readConfig*`/`econf_readDirs*` fail with a parse error, the
+    location record names one of the consulted files – the main-file candidate or the drop-in at
+    which the read stopped, whatever number it has in the sequence – by its absolute path, and the
+    line number is the one the parser reported for that file's content. -/
+theorem C13_location_history (ctx : RdCtx) (s : RdState) (dirs : List Str) (nm : Str) (suffix : Option Str) (d : Str)
+    (comment : Str) (join python : Bool) (confDirs : List Str) (e : Err) (b : Bool)
+    (h : (readHistory ctx s dirs (some nm) suffix (some d) comment join python confDirs).2 = .error (e, b))
+    (hp : ParseErr e) :
+    ∃ p ∈ mainCandidates dirs nm (dotSuffix (some nm) suffix) ++
+          dropinPaths ctx.fs dirs nm (dotSuffix (some nm) suffix)
+            (if confDirs.isEmpty then [dotSuffix (some nm) suffix ++ [0x2e, 0x64]] else confDirs),
+      LocatedAt ctx join python d comment
+        (readHistory ctx s dirs (some nm) suffix (some d) comment join python confDirs).1 p e := by
+  unfold readHistory at h ⊢
+  simp only at h ⊢
+  by_cases hnm : nm.isEmpty = true
+  · simp only [hnm, if_true] at h ⊢
+    have h2 := C13_location_seq ctx join python d comment s
+      (dropinPaths ctx.fs dirs nm (dotSuffix (some nm) suffix) (if confDirs.isEmpty then [dotSuffix (some nm) suffix ++ [0x2e, 0x64]] else confDirs))
+    generalize readSeq ctx join python d comment s _ = r at h h2 ⊢
+    obtain ⟨r1, r2⟩ := r
+    cases r2 with
+    | error e' =>
+      simp only at h ⊢; cases h
+      obtain ⟨pre, p, post, hps, hloc⟩ := h2 e rfl hp
+      exact ⟨p, List.mem_append_right _ (by rw [hps]; simp), hloc⟩
+    | ok kfs =>
+      simp only at h
+      split at h
+      · cases h; exact absurd rfl (parseErr_ne_nofile _ hp)
+      · cases h
+  · simp only [hnm, Bool.false_eq_true, if_false] at h ⊢
+    have h1 := C13_location_first ctx join python d comment s (mainCandidates dirs nm (dotSuffix (some nm) suffix))
+    generalize readFirst ctx join python d comment s _ = q at h h1 ⊢
+    obtain ⟨q1, q2⟩ := q
+    cases q2 with
+    | error e' =>
+      simp only at h ⊢; cases h
+      obtain ⟨p, hpm, hloc⟩ := h1 e rfl hp
+      exact ⟨p, List.mem_append_left _ hpm, hloc⟩
+    | ok main =>
+      simp only at h ⊢
+      have h2 := C13_location_seq ctx join python d comment q1
+        (dropinPaths ctx.fs dirs nm (dotSuffix (some nm) suffix) (if confDirs.isEmpty then [dotSuffix (some nm) suffix ++ [0x2e, 0x64]] else confDirs))
+      generalize readSeq ctx join python d comment q1 _ = r at h h2 ⊢
+      obtain ⟨r1, r2⟩ := r
+      cases r2 with
+      | error e' =>
+        simp only at h ⊢; cases h
+        obtain ⟨pre, p, post, hps, hloc⟩ := h2 e rfl hp
+        exact ⟨p, List.mem_append_right _ (by rw [hps]; simp), hloc⟩
+      | ok kfs =>
+        simp only at h
+        split at h
+        · cases h; exact absurd rfl (parseErr_ne_nofile _ hp)
+        · cases h
+
+
+/-- the two theorems composed: the failing file is a conventional document followed by a malformed
+    line – then the recorded line number is that line's number -/
+theorem C13_layered_line (ctx : RdCtx) (join : Bool) (d c : Str) (s' : RdState) (p : Str) (e e' : Err)
+    (hloc : LocatedAt ctx join false d c s' p e)
+    (doc : List Item) (bad rest : Str)
+    (hcontent : ∀ abs, absPath ctx.fs p = some abs → ctx.fs.read abs = some (render doc ++ bad ++ rest))
+    (hw : CfgWF (Cfg.eff { delim := d, comment := c, python := false, join := join }))
+    (hdoc : ∀ it ∈ doc, it.WF (Cfg.eff { delim := d, comment := c, python := false, join := join }))
+    (hline : IsLine bad)
+    (hbad : ∀ st, parseLine (Cfg.eff { delim := d, comment := c, python := false, join := join }) st bad = .error e') :
+    e = e' ∧ s'.g.errLine = (renderLines doc).length + 1 := by
+  obtain ⟨abs, content, n, ha, hr, hpb, _, hline'⟩ := hloc
+  have hc := hcontent abs ha
+  rw [hr] at hc
+  simp only [Option.some.injEq] at hc
+  subst hc
+  have := C13_after_conventional { delim := d, comment := c, python := false, join := join } doc bad rest e' hw hdoc hline hbad
+  rw [this] at hpb
+  simp only [Except.error.injEq, Prod.mk.injEq] at hpb
+  exact ⟨hpb.1.symm, by rw [hline', ← hpb.2]⟩
 
 end Econf
